@@ -209,6 +209,60 @@ def iter_simple(fns, src, nmax, which='next', name=None):
     return finish(res, ex, t0, paths, unw)
 
 
+KNOWN_ITER_METHODS = {'next', 'size_hint', 'count', 'last', 'nth', 'fold', 'next_back', 'nth_back', 'rfold', 'len', 'clone', 'clone_from', 'drop', 'fmt',
+                      'as_slice', 'as_mut_slice'}
+
+
+@guarded
+def iter_overrides(fns, src, nmax, name=None):
+    """every *other* method the crate defines for GenericArrayIter in its Iterator / DoubleEndedIterator / ExactSizeIterator impls (an override of a
+    provided method: find, position, any, all, for_each, try_fold, advance_by, ...), run generically from an arbitrary valid position with N <= nmax:
+    closures are caller code (may panic at every call), usize arguments are unconstrained, element destructors may panic; afterwards the owner
+    drops the iterator. Ownership obligations only (no double drop / stale read / leak, iterator invariant) - what such a method returns is
+    decided by K's comparison with the queue model."""
+    N, I, B, J = syms('N', 'index', 'index_back', 'J')
+    res = Result(name or 'iter.overrides', ['C05', 'C06', 'C04', 'C03'], 'N <= %d, index <= index_back <= N; every overridden provided method of the iterator impls; closures and destructors may panic' % nmax)
+    ex = Exec(fns, src, J, N, nmax=nmax)
+    ex.V = Arr('F', bv(2 ** 63))
+    t0, paths, unw, ran = time.time(), 0, 0, []
+    for (trait, head, meth), lst in sorted(ex.index.items(), key=lambda kv: str(kv[0])):
+        if head != 'GenericArrayIter' or trait not in ('Iterator', 'DoubleEndedIterator', 'ExactSizeIterator') or meth in KNOWN_ITER_METHODS:
+            continue
+        fn = ex.pick(lst)
+        A = Arr('A_' + meth, N)
+        st = new_state()
+        bounded(ex, st, N, nmax)
+        it = iter_state(ex, st, A, I, B, N, J)
+        byval = not fn.ptypes[0].startswith('&')
+        args = [st.get(it, ()) if byval else Ref(it, ())]
+        for k, ty in enumerate(fn.ptypes[1:]):
+            if ty.strip() == 'usize':
+                args.append(syms('arg%d_%s' % (k, meth))[0])
+            elif ty.strip() == 'bool':
+                args.append(z3.Bool('arg%d_%s' % (k, meth)))
+            else:
+                args.append(Opaque('F'))      # a closure / initial accumulator supplied by the caller
+        ran.append('%s::%s' % (trait, meth))
+        for (s2, kind, val) in ex.run_fn(st, fn, args):
+            paths += 1
+            unw += kind == 'unwind'
+            if kind == 'ret':
+                ex.ev_extern(s2, val)
+                if not byval:
+                    cur = s2.get(it, ())
+                    ex.require(s2, z3.And(ULE(cur[1], cur[2]), ULE(cur[2], N)), 'iterator invariant index <= index_back <= N broken', 'post(%s)' % meth)
+            if byval:
+                if kind == 'ret':
+                    end_no_leak(ex, s2, A, N, J)
+            else:
+                s2.events.append('[%s] owner drops the iterator' % kind)
+                for (s3, k3, _) in ex.run_fn(s2, ex.pick(ex.index[('Drop', 'GenericArrayIter', 'drop')]), [Ref(it, ())]):
+                    if kind == 'ret' and k3 == 'ret':
+                        end_no_leak(ex, s3, A, N, J)
+    res.bounds += '; methods found: %s' % (', '.join(ran) or 'none (the crate overrides nothing beyond the methods with scenarios of their own)')
+    return finish(res, ex, t0, paths, unw)
+
+
 # ----------------------------------------------------------------------------------------------- C04
 def bounded(ex, st, N, nmax):
     """N <= nmax for unrolled pipelines; no bound at all when the loops are summarised by an (auto-checked) invariant"""
